@@ -589,6 +589,44 @@ impl Recv {
     //@spec         },
     //@end
 
+    //@extract src/proto/streams/recv.rs Recv::poll_response
+    //@attr #[verifier::exec_allows_no_decreases_clause]
+    //@subst stream: &mut store::Ptr=>stream: &mut Stream
+    //@subst_re Poll<Result<Response<\(\)>, proto::Error>>=>Poll<Result<u8, Error>>
+    //@subst use super::peer::PollMessage::*;=>let ghost mut k: int = 0; proof { assert(stream.pending_recv@.skip(0) =~= stream.pending_recv@); }
+    //@subst Some(Event::Headers(Client(response))) => return Poll::Ready(Ok(response)), ==>> Some(Event::Headers(PollMessage::Client(response))) => { proof { assert(old(stream).pending_recv@.skip(k).drop_first() =~= old(stream).pending_recv@.skip(k + 1)); } return Poll::Ready(Ok(response)); }
+    //@subst Some(Event::InformationalHeaders(_)) => { ==>> Some(Event::InformationalHeaders(_)) => { proof { assert(old(stream).pending_recv@.skip(k).drop_first() =~= old(stream).pending_recv@.skip(k + 1)); k = k + 1; }
+    //@subst Some(_) => panic!("poll_response called after response returned"), ==>> Some(_) => { proof { let q = old(stream).pending_recv@; assert(q.skip(k)[0] == q[k]); assert((q[k] is InformationalHeaders) || (q[k] matches Event::Headers(PollMessage::Client(x)))); } assert(false); return Poll::Pending; }
+    //@subst if !stream.state.ensure_recv_open()? {=>let _o = stream.state.ensure_recv_open(); if let Err(e) = _o { return Poll::Ready(Err(e)); } if !_o.unwrap() {
+    //@ret r
+    //@spec     requires
+    //@spec         // ResponseFuture polls until the response head was returned, never after: what precedes the response head in
+    //@spec         // the queue can only be interim (1xx) responses (Recv::recv_headers queues nothing else before it; DATA before
+    //@spec         // HEADERS is rejected by the state machine) — this is the `panic!` of the real body, as an obligation
+    //@spec         forall|i: int| 0 <= i < old(stream).pending_recv@.len() && (forall|j: int| 0 <= j < i ==> old(stream).pending_recv@[j] is InformationalHeaders)
+    //@spec             ==> (#[trigger] old(stream).pending_recv@[i] is InformationalHeaders) || (old(stream).pending_recv@[i] matches Event::Headers(PollMessage::Client(x))),
+    //@spec     ensures
+    //@spec         *final(self) == (Recv { buffer: final(self).buffer, ..*old(self) }),
+    //@spec         match r {
+    //@spec             // C01: the response head is the first non-interim event, and everything behind it keeps its order
+    //@spec             Poll::Ready(Ok(x)) => exists|n: int| 0 <= n < old(stream).pending_recv@.len() && old(stream).pending_recv@[n] == Event::Headers(PollMessage::Client(x))
+    //@spec                 && (forall|j: int| 0 <= j < n ==> old(stream).pending_recv@[j] is InformationalHeaders)
+    //@spec                 && final(stream).pending_recv@ == old(stream).pending_recv@.skip(n + 1),
+    //@spec             // C07: nothing but interim responses queued and the stream failed or ended: the future resolves with the cause
+    //@spec             Poll::Ready(Err(e)) => final(stream).pending_recv@.len() == 0 && (old(stream).state.recv_open_spec() == Err::<bool, Error>(e)
+    //@spec                 || (old(stream).state.recv_open_spec() == Ok::<bool, Error>(false) && e == Error::Reset(old(stream).id, Reason::PROTOCOL_ERROR, Initiator::Library))),
+    //@spec             // C06: otherwise wait, with the waker stored
+    //@spec             Poll::Pending => final(stream).pending_recv@.len() == 0 && old(stream).state.recv_open_spec() == Ok::<bool, Error>(true) && final(stream).recv_task is Some,
+    //@spec         },
+    //@loop 0     invariant
+    //@loop 0         *self == (Recv { buffer: self.buffer, ..*old(self) }),
+    //@loop 0         *stream == (Stream { pending_recv: stream.pending_recv, ..*old(stream) }),
+    //@loop 0         0 <= k <= old(stream).pending_recv@.len() && stream.pending_recv@ == old(stream).pending_recv@.skip(k),
+    //@loop 0         forall|j: int| 0 <= j < k ==> old(stream).pending_recv@[j] is InformationalHeaders,
+    //@loop 0         forall|i: int| 0 <= i < old(stream).pending_recv@.len() && (forall|j: int| 0 <= j < i ==> old(stream).pending_recv@[j] is InformationalHeaders)
+    //@loop 0             ==> (#[trigger] old(stream).pending_recv@[i] is InformationalHeaders) || (old(stream).pending_recv@[i] matches Event::Headers(PollMessage::Client(x))),
+    //@end
+
     //@extract src/proto/streams/recv.rs Recv::poll_informational
     //@subst stream: &mut store::Ptr=>stream: &mut Stream
     //@subst_re Poll<Option<Result<Response<\(\)>, proto::Error>>>=>Poll<Option<Result<u8, Error>>>
